@@ -40,6 +40,9 @@ void emit(const J& j) {
 J viol_json(const Violation& v) {
   J j = J::obj();
   j.set("class", v.cls); j.set("site", v.site); j.set("detail", v.detail);
+  J tg = J::arr();
+  for (const std::string& t : v.tags) tg.push(t);
+  j.set("tags", tg);
   return j;
 }
 
@@ -82,7 +85,7 @@ int cmd_worker(const std::map<std::string, std::string>& a) {
     if (only_hash && (hash_mod <= 0 || idx % hash_mod != 0)) continue;
     begin_run(idx);
     CaseBox cb = gen_case(prop, part, part.compare(0, 4, "tmpl") == 0 ? part : tier, seed, idx);
-    arm_watchdog(20, 300);
+    arm_watchdog(prop == "C12" ? 6 : 20, 300);
     Outcome o = exec_case(cb, false, &stats);
     disarm_watchdog();
     ++runs;
@@ -260,6 +263,24 @@ int main(int argc, char** argv) {
   if (cmd == "replay" && !pos.empty()) return cmd_replay(pos[0], a);
   if (cmd == "gen") return cmd_gen(a);
   if (cmd == "enumerate") return cmd_enumerate(a);
+  if (cmd == "dump" && !pos.empty()) {
+    // Write the (faulted) image of a C12 case, or of a bare base recipe, to a file: simzone dump <case.json|base> <out>
+    std::string text, bytes;
+    J j;
+    if (read_file(pos[0], &text) && J::parse(text, &j)) {
+      const J& cj = j.has("case") ? j.at("case") : j;
+      C12Case c; c12_from_json(cj, &c);
+      bytes = apply_faults(base_bytes(c.base), c.faults, nullptr);
+    } else bytes = base_bytes(pos[0]);
+    FILE* f = fopen(pos.size() > 1 ? pos[1].c_str() : "/dev/stdout", "wb");
+    fwrite(bytes.data(), 1, bytes.size(), f); fclose(f);
+    return 0;
+  }
+  if (cmd == "count") {
+    auto get = [&](const char* k, const char* d) { auto it = a.find(k); return it == a.end() ? std::string(d) : it->second; };
+    printf("%lld\n", static_cast<long long>(part_size(get("prop", ""), get("part", ""), get("tier", "quick"))));
+    return 0;
+  }
   fprintf(stderr, "unknown command\n");
   return 2;
 }
